@@ -17,7 +17,7 @@ fn n(kind: &str, owner: usize, aname: &str, how: &str, path: &[i64], text: &str)
     json!({"kind": kind, "owner": owner, "aname": aname, "how": how, "path": path, "text": text})
 }
 
-const DOC: &str = "<!DOCTYPE r><?p d?><r y=\"1\" z=\"2\"><a><b/>u<c x=\"3\"/></a>t<!--k--><d><e/></d></r>";
+const DOC: &str = "<!DOCTYPE r><?p d?><r y=\"1\" z=\"2\"><a><b/>uvw<c x=\"3\"/></a>txyz<!--k--><d><e/></d></r>";
 
 /// 30 nodes: a parsed document with every movable kind, factory-made nodes, a foreign document.
 pub fn big_pool() -> J {
@@ -50,6 +50,10 @@ pub fn big_pool() -> J {
         n("text", 1, "", "parsed", &[3, -2, 1], ""), // 26 value of z
         n("text", 1, "", "parsed", &[3, 1, 3, -1, 1], ""), // 27 value of x
     ];
+    // slots for the nodes that split_text creates
+    for _ in 0..4 {
+        v.push(n("text", 1, "", "spare", &[], ""));
+    }
     let f = v.len() + 1;
     v.push(n("doc", f, "", "doc", &[], DOC)); // structurally equal foreign document
     v.push(n("elem", f, "", "create", &[], "f"));
@@ -176,11 +180,23 @@ fn queries(w: &World, abs: &J, out: &mut dyn Write) -> usize {
 fn random_call(w: &World, rng: &mut StdRng) -> J {
     let nn = w.n();
     let main = |i: usize| (if w.kind[i] == "doc" { i } else { w.owner[i] }) == 1;
-    let movable: Vec<usize> = (1..=nn).filter(|i| w.kind[*i] != "doc" && w.kind[*i] != "attr").collect();
-    let attrs: Vec<usize> = (1..=nn).filter(|i| w.kind[*i] == "attr").collect();
+    let movable: Vec<usize> = (1..=nn)
+        .filter(|i| w.nodes[*i].is_some() && w.kind[*i] != "doc" && w.kind[*i] != "attr")
+        .collect();
+    // split_text: an existing text node of the main document, while a spare slot is left
+    if let Some(slot) = w.spare() {
+        if rng.gen_range(0..100) < 6 {
+            let texts: Vec<usize> = movable.iter().cloned().filter(|i| w.kind[*i] == "text" && main(*i) && w.text_len(*i) >= 2).collect();
+            if let Some(t) = texts.choose(rng) {
+                let len = w.text_len(*t);
+                return json!({"op": "split_text", "r": t, "new": slot, "off": rng.gen_range(1..len)});
+            }
+        }
+    }
+    let attrs: Vec<usize> = (1..=nn).filter(|i| w.nodes[*i].is_some() && w.kind[*i] == "attr").collect();
     let elems: Vec<usize> = (1..=nn).filter(|i| w.kind[*i] == "elem" && main(*i)).collect();
     let recv: Vec<usize> = (1..=nn)
-        .filter(|i| main(*i) && w.kind[*i] != "doctype" && w.kind[*i] != "eref")
+        .filter(|i| w.nodes[*i].is_some() && main(*i) && w.kind[*i] != "doctype" && w.kind[*i] != "eref")
         .collect();
     // receivers: mostly containers
     let containers: Vec<usize> = recv.iter().cloned().filter(|i| ["doc", "elem", "attr"].contains(&w.kind[*i].as_str())).collect();
@@ -233,7 +249,7 @@ pub fn record(args: &[String]) -> i32 {
     let mut steps = 0usize;
     let mut nq = 0usize;
     for h in 0..hist {
-        let w = match World::build(&pool, false) {
+        let mut w = match World::build(&pool, false) {
             Ok(w) => w,
             Err(e) => {
                 eprintln!("cannot build the pool: {}", e);
@@ -247,7 +263,7 @@ pub fn record(args: &[String]) -> i32 {
             let c = random_call(&w, &mut rng);
             heartbeat(|| json!({"event": "crash", "call": c, "calls": hist}).to_string());
             hist.push(c.clone());
-            let outc = w.exec(&c);
+            let outc = w.exec_mut(&c);
             let post = w.project();
             writeln!(out, "{}", json!({"event": "call", "call": c, "out": outc, "pre": pre, "post": post})).unwrap();
             out.flush().unwrap();
@@ -271,7 +287,7 @@ pub fn rerun(args: &[String]) -> i32 {
     let text = std::fs::read_to_string(inp).unwrap_or_default();
     let case: J = serde_json::from_str(&text).unwrap_or(J::Null);
     let pool = case["pool"].clone();
-    let w = match World::build(&pool, false) {
+    let mut w = match World::build(&pool, false) {
         Ok(w) => w,
         Err(e) => {
             eprintln!("cannot build the pool: {}", e);
@@ -287,13 +303,13 @@ pub fn rerun(args: &[String]) -> i32 {
     }
     heartbeat(|| json!({"event": "crash", "call": ev["call"], "calls": hist}).to_string());
     for c in hist.as_array().cloned().unwrap_or_default() {
-        let _ = w.exec(&c);
+        let _ = w.exec_mut(&c);
     }
     let pre = w.project();
     if ev["event"] == "query" {
         queries(&w, &pre, &mut *out);
     } else {
-        let outc = w.exec(&ev["call"]);
+        let outc = w.exec_mut(&ev["call"]);
         let post = w.project();
         writeln!(out, "{}", json!({"event": "call", "call": ev["call"], "out": outc, "pre": pre, "post": post})).unwrap();
     }
